@@ -202,7 +202,19 @@ impl Property for C05 {
         let opts = gen_mode_opts(rng);
         let cfg = resolve(&opts);
         let long = rng.chance(1, 12);
-        let input = gen_input(rng, &cfg, long);
+        let mut input = gen_input(rng, &cfg, long);
+        if long && rng.chance(1, 3) {
+            // a total length that is exactly a multiple of the reader's buffer sizes, or one off
+            let unit = *rng.pick(&[4096usize, 8192]);
+            let want = (input.len() / unit + 1) * unit + *rng.pick(&[0usize, 0, 1, unit - 1]);
+            let filler = if cfg.delim == Some(b'p') { b'q' } else { b'p' };
+            // the last byte stays what it was (a separator, a quote, a letter)
+            let last = input.pop();
+            while input.len() + usize::from(last.is_some()) < want {
+                input.push(filler);
+            }
+            input.extend(last);
+        }
         let plans = gen_plans(rng, &input, &cfg, long);
         let mut opts = opts;
         add_neutral_xargs_opts(rng, &mut opts);
